@@ -57,18 +57,25 @@ def gen_input(rng):
     return genlib.pad(rng, s)
 
 
+def pick_limit(rng, i):
+    """a configured maximum length near the sizes that matter (input length, and a little above: the normalized href may be longer)"""
+    if rng.random() < 0.7:
+        return ""
+    return " L=" + str(max(0, len(i) + rng.choice([-2, -1, 0, 0, 1, 2, 3, 5, 8, 13])))
+
+
 def explore(run, binp, n):
     rng = run.rng
     inputs = sorted({gen_input(rng) for _ in range(n)})
     rng.shuffle(inputs)
-    lines = [f"parsespecial {hx(i)}" for i in inputs]
-    lines = [l for l in lines if len(l.split()) == 2]
+    lines = [f"parsespecial {hx(i)}" + pick_limit(rng, i) for i in inputs]
+    lines = [l for l in lines if len(l.split()) >= 2 and not l.split()[1].startswith("L=")]
     real, crash = lib.run_lines(binp, lines, timeout=900)
     if crash:
         idx = min(crash.get("answered", 0), len(lines) - 1)
         run.violation("crash:" + lines[idx], "ada::parse<ada::url> crashed/aborted", lines=[lines[idx]], detail=crash)
         return
-    q = ["parse.special " + l.split()[1] for l in lines]
+    q = ["parse.special " + " ".join(l.split()[1:]) for l in lines]
     model, dcrash = lib.run_lines(lib.driver_path(), q, timeout=900)
     if dcrash:
         run.oblige("corr:L1 parse_url_impl no base (driver)", False, str(dcrash)[:300])
@@ -110,10 +117,12 @@ def explore(run, binp, n):
                 stat["ok_opaque_path"] += f[9] == "1"
         if r != m:
             bad.append((l, r, m))
+    stat["with_limit"] = sum(1 for l in lines if " L=" in l)
     run.extra["parse_special_L1_inputs"] = len(lines)
     run.extra["parse_special_L1_outcomes"] = stat
     run.oblige("corr:L1 Model.ParseSpecial = ada::parse<ada::url>(input) without a base, every scheme (every field, failures)",
-               not bad, "; ".join(f"input {unhx(l.split()[1])!r}: implementation [{r[:300]}], model [{m[:300]}]" for l, r, m in bad[:3]))
+               not bad, "; ".join(f"input {unhx(l.split()[1])!r}{' ' + l.split()[2] if len(l.split()) > 2 else ''}: implementation [{r[:300]}], "
+                                  f"model [{m[:300]}]" for l, r, m in bad[:3]))
 
 
 BASES = [b"http://u:p@h:81/a/b/c?z#y", b"https://example.com/", b"https://example.com", b"http://h/a/b/../c/./d", b"ws://h/p/", b"wss://[::1]:8/x?",
@@ -146,15 +155,14 @@ def explore_base(run, binp, n):
     rng = run.rng
     pairs = sorted({gen_base_pair(rng) for _ in range(n)})
     rng.shuffle(pairs)
-    lines = [f"parsebase {hx(i)} {hx(b)}" for i, b in pairs]
-    lines = [l for l in lines if len(l.split()) == 3]
+    lines = [f"parsebase {hx(i)} {hx(b)}" + pick_limit(rng, i if rng.random() < 0.5 else i + b[:-2]) for i, b in pairs if i and b]
     real, crash = lib.run_lines(binp, lines, timeout=900)
     if crash:
         idx = min(crash.get("answered", 0), len(lines) - 1)
         run.violation("crash:" + lines[idx], "ada::parse<ada::url> with a base crashed/aborted", lines=[lines[idx]], detail=crash)
         return
     keep = [(l, r.split()) for l, r in zip(lines, real) if r != "badbase"]
-    q = ["parse.base " + l.split()[1] + " " + " ".join(p[:10]) for l, p in keep]
+    q = ["parse.base " + l.split()[1] + " " + " ".join(p[:10]) + (" " + l.split()[3] if len(l.split()) > 3 else "") for l, p in keep]
     model, dcrash = lib.run_lines(lib.driver_path(), q, timeout=900)
     if dcrash:
         run.oblige("corr:L1 parse_url_impl with a base (driver)", False, str(dcrash)[:300])
@@ -188,8 +196,9 @@ def explore_base(run, binp, n):
             stat["result_keeps_base_host"] += 1
         if want != m:
             bad.append((l, want, m))
+    stat["with_limit"] = sum(1 for l, _ in keep if " L=" in l)
     run.extra["parse_base_L1_pairs"] = len(keep)
     run.extra["parse_base_L1_outcomes"] = stat
     run.oblige("corr:L1 Model.ParseSpecial.parseWithBase = ada::parse<ada::url>(input, &base) (every field, failures)",
-               not bad, "; ".join(f"input {unhx(l.split()[1])!r} base {unhx(l.split()[2])!r}: implementation [{r[:300]}], model [{m[:300]}]"
+               not bad, "; ".join(f"input {unhx(l.split()[1])!r} base {unhx(l.split()[2])!r}{' ' + l.split()[3] if len(l.split()) > 3 else ''}: implementation [{r[:300]}], model [{m[:300]}]"
                                   for l, r, m in bad[:3]))
